@@ -296,7 +296,7 @@ def _closed_form(res, f, flags_log, env_names, ref_src, ref_env, what):
         env = {n: A.sym(n) for n in env_names}
         env[flags_log] = lg
         try:
-            v = A.eval_function(f.node, env)
+            v = A.eval_function(f.node, env, module=f.module)
             ref = _ev_src(ref_src, ref_env)
             if not lg:
                 ref = A.exp(ref)
